@@ -503,7 +503,10 @@ def discovery_dynamic(ctx):
     for (kind, si, hname, pos), job, r in zip(meta, jobs, res):
         if kind == "base":
             if r is None or r.get("err"):
-                ctx.tie_broken("discover:baseline-scan", json.dumps({"scenario": si, "error": (r or {}).get("err")}))
+                # well-formed devices only, and the scan does not return: nothing hostile is needed any more
+                ctx.violation("C05:discover:well-formed-scan-raises", "scan() of well-formed announcements only (%s scanner) %s" % (
+                    {"m": "multicast", "u": "unicast", "z": "zeroconf"}.get(job.get("mode", "m")), "did not return" if (r or {}).get("hang") else "raised " + str((r or {}).get("err"))),
+                    {"part": "discover", "hostile": None, "position": None, "mode": job.get("mode", "m"), "feed": job["feed"], "records": job.get("records"), "expected_addresses": []})
                 base[si] = None
             else:
                 base[si] = {c["address"]: c for c in r["obs"]}
